@@ -281,7 +281,15 @@ def check_solve1d(case):
     vol = P.dxf
     I0 = _integrals(vol, P.field.data)
     A0 = _abs_integrals(vol, P.field.data)
-    res = solver.solve(P.field, case["cfl"], stop={"maxit": case["nsteps"]})
+    try:
+        res = solver.solve(P.field, case["cfl"], stop={"maxit": case["nsteps"]})
+    except np.linalg.LinAlgError:
+        # a linearised implicit step that left the admissible set makes the next Jacobian non-finite; LAPACK then reports a singular matrix
+        jac = getattr(solver, "jacobian", None)
+        cur = getattr(solver, "Qn", None)       # state the failing step started from
+        if (jac is not None and not np.all(np.isfinite(jac))) or (cur is not None and not sim.admissible(P.smd, cur.data)):
+            raise Skip("left_admissible_set (implicit step from a state with negative pressure/density)")
+        raise
     fin = res[-1]
     if not sim.admissible(P.smd, fin.data):
         if implicit or not (cases.num_is_first_order(case["num"]) or cases.num_is_limited(case["num"])):
@@ -293,13 +301,17 @@ def check_solve1d(case):
     if not all(np.all(np.isfinite(d)) for d in fin.data):
         raise Skip("left_admissible_set (non-finite)")
     I1 = _integrals(vol, fin.data)
+    A1 = _abs_integrals(vol, fin.data)
+    if any(a1 > 100 * max(a0, _momentum_floor(P, vol, k)) for k, (a0, a1) in enumerate(zip(A0, A1))):
+        raise Skip("unstable run (solution grows by more than 100x): round-off is measured against the initial integrals")
     name = P.smd["name"]
     worst = 0.0
     for k in range(len(I0)):
         if case["bckind"] == "sym" and k == 1:
             continue
-        # the scale of momentum includes the acoustic momentum rho*c so that a gas at rest has a non-zero scale
-        tol = (1e-6 if implicit else 1e-13 * case["nsteps"] * max(P.n, 10)) * max(A0[k], _momentum_floor(P, vol, k))
+        # the scale of momentum includes the acoustic momentum rho*c so that a gas at rest has a non-zero scale; the column sums of the finite-difference
+        # Jacobian vanish only to round-off/step (~1e-10), which an implicit step multiplies by dt: the implicit tolerance grows with the CFL number
+        tol = (1e-6 * max(1.0, case["cfl"]) if implicit else 1e-13 * case["nsteps"] * max(P.n, 10)) * max(A0[k], A1[k], _momentum_floor(P, vol, k))
         err = abs(I1[k] - I0[k])
         require(err <= tol, "solve-conservation", "variable %d: integral changes by %.3g over %d steps (%s, cfl=%g, %s/%s/%s, bc %s, %s mesh; initial %r, tol %.3g)"
                 % (k, err, case["nsteps"], case["integ"], case["cfl"], md["name"], case["flux"], case["num"].get("limiter", case["num"]["name"]), case["bckind"], case["mesh"]["kind"], I0[k], tol))
@@ -340,11 +352,14 @@ def check_solve2d(case):
     if not all(np.all(np.isfinite(d)) for d in fin.data):
         raise Skip("left_admissible_set (non-finite)")
     I1 = _integrals(vol, fin.data)
+    A1 = _abs_integrals(vol, fin.data)
+    if any(a1 > 100 * max(a0, _momentum_floor(P, vol, k)) for k, (a0, a1) in enumerate(zip(A0, A1))):
+        raise Skip("unstable run (solution grows by more than 100x): round-off is measured against the initial integrals")
     worst = 0.0
     for k in range(4):
         if (k == 1 and case["bx"][0] == "sym") or (k == 2 and case["by"][0] == "sym"):
             continue
-        tol = 1e-13 * case["nsteps"] * max(P.n, 10) * max(A0[k], _momentum_floor(P, vol, k))
+        tol = 1e-13 * case["nsteps"] * max(P.n, 10) * max(A0[k], A1[k], _momentum_floor(P, vol, k))
         err = abs(I1[k] - I0[k])
         require(err <= tol, "solve-conservation-2d", "variable %d: integral changes by %.3g over %d steps (%s, cfl=%g, %s/%s, x:%s y:%s, %dx%d)"
                 % (k, err, case["nsteps"], case["integ"], case["cfl"], case["flux"], case["num"]["name"], case["bx"][0], case["by"][0], P.nx, P.ny))
